@@ -35,6 +35,15 @@ def c02(rng, index, tier):
 def c03(rng, index, tier):
     case = travgen.draw_case(rng, "C03", shipped_share(tier), index)
     case["plan"]["dur_mode"] = rng.choice(["tied", "tied", "short"])
+    if case.get("suite_spec") and rng.random() < 0.3:
+        # several remote workers of one cluster sharing setup per swarm, with retries
+        nets = " ".join(sorted(rng.sample(["cluster1.net6", "cluster1.net7", "cluster1.net8"], rng.randint(2, 3)) +
+                               rng.sample(["cluster2.net6", "cluster2.net8"], rng.randint(0, 2))))
+        case["nets"], case["worker_kind"] = nets, "remote"
+        case["params"] = {"shared_pool": "/mnt/local/images/shared", "pool_scope": rng.choice(["own swarm shared", "own swarm shared", None]) or "own swarm cluster shared",
+                          "max_tries": str(rng.choice([2, 2, 3]))}
+        case["store"], case["population"] = {"states": {}, "roots": {}}, "empty"
+        case.pop("interrupt_at", None)
     return case
 
 
@@ -42,6 +51,24 @@ def c04(rng, index, tier):
     case = travgen.draw_case(rng, "C04", shipped_share(tier), index)
     case["plan"]["dur_mode"] = rng.choice(["tied", "heavy", "short"])
     case["plan"]["by_class"] = {} if rng.random() < 0.7 else case["plan"]["by_class"]
+    if case.get("suite_spec") and rng.random() < 0.35:
+        # retries with a concurrency limit below the number of tries and tries that last most of their timeout:
+        # consecutive tries add up to more than one timeout while each stays within it
+        spec = suitegen.draw_fan_spec(rng)
+        for setup in spec["setups"]:
+            setup["removable"] = False
+        case["suite_spec"] = spec
+        case["vm_strs"] = {"vm1": "only A1\n"}
+        case["restriction"] = "leaves"
+        nets, kind = travgen.draw_nets(rng, rng.choice(["lxc", "lxc", "remote"]), max_workers=3)
+        case["nets"], case["worker_kind"] = nets, kind
+        case["params"] = {"shared_pool": "/mnt/local/images/shared", "max_tries": str(rng.choice([2, 3, 3, 4])), "max_concurrent_tries": "1"}
+        if rng.random() < 0.4:
+            case["params"]["rerun_status"] = "pass fail error"
+        case["plan"] = {"default_status": "PASS", "dur_seed": index, "dur_mode": "long", "by_class": {}, "withhold": []}
+        case["store"], case["population"], case["eager"] = {"states": {}, "roots": {}}, "empty", rng.random() < 0.3
+        case.pop("interrupt_at", None)
+        return case
     if case.get("suite_spec") and rng.random() < 0.5:
         # several workers converging on few tests
         leaves = suitegen.leaf_names(case["suite_spec"])
@@ -57,6 +84,33 @@ def c04(rng, index, tier):
 
 def c05(rng, index, tier):
     case = travgen.draw_case(rng, "C05", 0.0 if rng.random() < 0.9 else 1.0, index)
+    if case.get("suite_spec") and rng.random() < 0.5:
+        # a removable state with several dependants spread over the workers
+        case["suite_spec"] = suitegen.draw_fan_spec(rng)
+        case["vm_strs"] = {"vm1": "only A1\n"}
+        case["restriction"] = "leaves"
+        kind = rng.choice(["lxc", "lxc", "remote", "remote"])
+        if kind == "remote":
+            nets = " ".join(sorted(rng.sample(["cluster1.net6", "cluster1.net7", "cluster1.net8"], rng.randint(2, 3)) +
+                                   rng.sample(["cluster2.net6", "cluster2.net8"], rng.randint(0, 1))))
+            scope = rng.choice([None, "own swarm shared", "own swarm shared"])
+        else:
+            nets, _ = travgen.draw_nets(rng, "lxc", max_workers=4)
+            scope = rng.choice([None, None, "own swarm shared"])
+        case["nets"], case["worker_kind"] = nets, kind
+        case["params"] = {"shared_pool": "/mnt/local/images/shared"}
+        if scope:
+            case["params"]["pool_scope"] = scope
+        if rng.random() < 0.3:
+            case["params"]["max_tries"] = "2"
+        case["plan"] = {"default_status": "PASS", "dur_seed": index, "dur_mode": rng.choice(["short", "tied", "heavy"]), "by_class": {}, "withhold": []}
+        case["store"], case["population"] = {"states": {}, "roots": {}}, "empty"
+        case["eager"] = rng.random() < 0.3
+        case.pop("interrupt_at", None)
+        if rng.random() < 0.4:
+            late = rng.sample(nets.split(), rng.randint(1, max(1, len(nets.split()) - 1)))
+            case["start_delays"] = {worker: rng.choice([1.0, 5.0, 20.0, 60.0, 150.0]) for worker in late}
+        return case
     if case.get("suite_spec"):
         spec = case["suite_spec"]
         for setup in spec["setups"]:
@@ -65,7 +119,47 @@ def c05(rng, index, tier):
         case["eager"] = rng.random() < 0.15
     else:
         case["restriction"] = rng.choice(["leaves..tutorial_gui", "leaves..tutorial_get.explicit_noop", "leaves..tutorial_gui,tutorial_get.explicit_noop"])
+    if rng.random() < 0.4:
+        # several workers of one remote swarm that share setup within the swarm only, some of them joining late
+        nets = " ".join(sorted(rng.sample(["cluster1.net6", "cluster1.net7", "cluster1.net8"], rng.randint(2, 3)) +
+                               rng.sample(["cluster2.net6", "cluster2.net8"], rng.randint(0, 2))))
+        case["nets"], case["worker_kind"] = nets, "remote"
+        case["params"] = {"shared_pool": "/mnt/local/images/shared", "pool_scope": "own swarm shared"}
+        if rng.random() < 0.4:
+            case["params"]["max_tries"] = "2"
+        case["store"], case["population"] = {"states": {}, "roots": {}}, "empty"
+        case.pop("interrupt_at", None)
+        if rng.random() < 0.5:
+            late = rng.sample(nets.split(), rng.randint(1, len(nets.split()) - 1))
+            case["start_delays"] = {worker: rng.choice([1.0, 5.0, 20.0, 60.0, 150.0]) for worker in late}
     return case
+
+
+def draw_replay_run(rng, case, keep_retry=False):
+    """A second job replaying the first one: same / smaller / larger / disjoint worker set of the same kind, pools kept or wiped."""
+    kind = case.get("worker_kind", "lxc")
+    current = case["nets"].split()
+    pool = {"lxc": travgen.LXC, "remote": travgen.CLUSTER, "serial": ["net0"], "mixed": travgen.LXC[:2] + travgen.CLUSTER[:3]}[kind]
+    roll = rng.random()
+    if roll < 0.3 or kind == "serial":
+        nets = current
+    elif roll < 0.55 and len(current) > 1:
+        nets = rng.sample(current, rng.randint(1, len(current) - 1))
+    elif roll < 0.8:
+        others = [n for n in pool if n not in current]
+        nets = rng.sample(others, rng.randint(1, min(3, len(others)))) if others else current
+    else:
+        nets = sorted(set(rng.sample(current, rng.randint(1, len(current))) + rng.sample(pool, rng.randint(1, 2))))
+    replay = {"nets": " ".join(sorted(nets)), "params": {}, "drop_params": [],
+              "wipe": rng.choice([None, None, None, "own"])}
+    if not keep_retry:
+        # the replay defaults (two tries; fail, error, warn rerun) unless set explicitly
+        replay["drop_params"] = ["max_tries", "max_concurrent_tries", "rerun_status", "stop_status"]
+        if rng.random() < 0.3:
+            replay["params"]["max_tries"] = str(rng.choice([1, 2, 3]))
+        if rng.random() < 0.3:
+            replay["params"]["rerun_status"] = ",".join(rng.sample(["fail", "error", "warn", "pass", "skip", "interrupted"], rng.randint(1, 3)))
+    return replay
 
 
 def c08(rng, index, tier):
@@ -77,6 +171,13 @@ def c08(rng, index, tier):
         if case.get("suite_spec"):
             case["store"] = travgen.draw_population(rng, case["suite_spec"], case["vm_strs"], nets,
                                                     case["population"] if case["population"] != "residue" else "empty")
+    if rng.random() < 0.3 and case["worker_kind"] != "mixed":
+        # a replayed previous job whose producers may not be part of the current worker set
+        case.pop("interrupt_at", None)
+        if case["population"] == "residue":
+            case["population"] = "empty"
+        case["plan"] = travgen.draw_plan(rng, case.get("suite_spec"), failing=rng.choice(["one-flaky", "random", "one-persistent"]), seed=index)
+        case["replay_run"] = draw_replay_run(rng, case)
     return case
 
 
@@ -121,6 +222,8 @@ def c10(rng, index, tier):
             case["plan"]["by_class"] = {}
             params["max_tries"] = "1"
             params.pop("max_concurrent_tries", None)
+        elif rng.random() < 0.3 and case["worker_kind"] != "mixed":
+            case["replay_run"] = draw_replay_run(rng, case)
     return case
 
 
@@ -133,7 +236,7 @@ NONTRIVIAL = {
     "C04": lambda case, result, c: c.get("bounces_observed", 0) > 0,
     "C05": lambda case, result, c: c.get("graphs_with_removable_states", 0) > 0 and (c.get("removals_audited", 0) + c.get("unset_requests_audited", 0)) > 0,
     "C08": lambda case, result, c: c.get("edges_with_foreign_producer", 0) > 0,
-    "C10": lambda case, result, c: c.get("decisions_with_history", 0) > 0 or bool(case.get("expect_error")),
+    "C10": lambda case, result, c: c.get("decisions_with_history", 0) > 0 or bool(case.get("expect_error")) or c.get("replayed_classes_audited", 0) > 0,
 }
 
 COUNTERS = {
